@@ -79,6 +79,10 @@ def run(ctx: common.Run):
         return
     check_decompose_rules(ctx, cirq)
     check_channel_wrappers(ctx, cirq)
+    check_pauli_string_operations(ctx, cirq)
+    # a channel given only by its action on a density tensor: kraus / superoperator describe that action
+    from harness.props import c09
+    c09.check_apply_channel_only(ctx, cirq)
     n = 250 if ctx.tier == 'quick' else 3000
     rng = ctx.substream('ops')
     reqs, meta = [], []
@@ -328,6 +332,53 @@ def run(ctx: common.Run):
             ctx.report_witness(f'{kind}', f'{kind} on axes {positions} of a tensor of shape {shape} differs from the action of the reported matrix',
                                {'lines': [{'op': desc, 'shape': shape, 'axes': positions}], 'impl_out': [repr(np.round(got[:32], 6).tolist())],
                                 'spec_out': [repr(np.round(want[:32], 6).tolist())], 'theorem_or_correspondence': 'applyOp via runArr_refines'})
+
+
+def check_pauli_string_operations(ctx, cirq):
+    """a Pauli string used as an operation, for every sign / phase of its coefficient: its matrix, its one-step decomposition (global
+    phase operation included), and the matrix and one-step decomposition of its controlled form all describe coefficient x P"""
+    P = {'X': cirq.unitary(cirq.X), 'Y': cirq.unitary(cirq.Y), 'Z': cirq.unitary(cirq.Z), 'I': np.eye(2)}
+    paulis = {'X': cirq.X, 'Y': cirq.Y, 'Z': cirq.Z}
+    qs = cirq.LineQubit.range(3)
+    ctrl = cirq.LineQubit(9)
+    strings = ['X', 'Z', 'XZ', 'YY', 'ZIX', 'XYZ']
+    coefs = [1, -1, 1j, -1j, np.exp(0.3j), -1.0, complex(-1, 0)]
+    if ctx.tier == 'quick':
+        strings = strings[ctx.seed % 2::2] + ['XZ']
+    for word in strings:
+        for coef in coefs:
+            ps = cirq.PauliString({qs[i]: paulis[ch] for i, ch in enumerate(word) if ch != 'I'}, coefficient=coef)
+            order = [qs[i] for i, ch in enumerate(word) if ch != 'I']
+            want = np.array([[complex(coef)]])
+            for ch in word:
+                if ch != 'I':
+                    want = np.kron(want, P[ch])
+            ctx.count('check', 'pauli-string-op')
+            ctx.case(['pauli-string-op', word, repr(coef)], coef != 1)
+            rep = {'lines': [{'pauli_string': repr(ps)}], 'theorem_or_correspondence': 'descriptions of one operation agree (coefficient x Pauli product)'}
+            views = {
+                'unitary': lambda: cirq.unitary(ps),
+                'decompose_once': lambda: cirq.Circuit(cirq.decompose_once(ps)).unitary(qubit_order=order, qubits_that_should_be_present=order),
+                'decompose': lambda: cirq.Circuit(cirq.decompose(ps)).unitary(qubit_order=order, qubits_that_should_be_present=order),
+            }
+            cwant = np.block([[np.eye(len(want)), np.zeros_like(want)], [np.zeros_like(want), want]])
+            cop = ps.controlled_by(ctrl)
+            views.update({
+                'controlled:unitary': lambda: cirq.unitary(cop),
+                'controlled:decompose_once': lambda: cirq.Circuit(cirq.decompose_once(cop)).unitary(qubit_order=[ctrl] + order, qubits_that_should_be_present=[ctrl] + order),
+                'controlled:decompose': lambda: cirq.Circuit(cirq.decompose(cop)).unitary(qubit_order=[ctrl] + order, qubits_that_should_be_present=[ctrl] + order),
+            })
+            for vname, f in views.items():
+                try:
+                    got = f()
+                except (TypeError, ValueError) as e:
+                    ctx.count('pauli_string_op', f'{vname}:{type(e).__name__}')
+                    continue
+                ref = cwant if vname.startswith('controlled') else want
+                if got.shape != ref.shape or not np.allclose(got, ref, atol=1e-8):
+                    ctx.report_witness('pauli-string-op:' + vname, f'{vname} of a Pauli string operation is not coefficient x Pauli product' + (' under the control' if vname.startswith('controlled') else ''),
+                                       dict(rep, impl_out=[repr(np.round(got, 6).tolist())], spec_out=[repr(np.round(ref, 6).tolist())]))
+                    break
 
 
 def check_channel_wrappers(ctx, cirq):
